@@ -202,4 +202,14 @@ def _run(pm: ProgramModel, ctx: Ctx, mb: ModelBuilder, cd: Codec) -> None:
     cd.report("OPS", "stress-shapes", cd.roundtrip(ctc_model(mb, stress_trees(mb))),
               "constraint shapes that stress normal forms", ("constraint", "constraint-count"))
     cd.large(mb, ("AND", "OR", "IMPLIES", "EQUIVALENCE"))
+    # PAIRS: every two-way combination of classes of different dimensions on one feature ------------------------------
+    from ..interact import Fragment, sweep
+    pv = {k: values[k] for k in ("none", "true", "int", "negative-int", "float", "float-integral", "str", "numeric-string",
+                                 "list", "list-of-one:int", "nested-map", "empty-list", "map-with-key-abstract")}
+    fr = Fragment(names=UVL_NAMES, ops=("AND", "OR", "IMPLIES", "EQUIVALENCE", "REQUIRES", "EXCLUDES"),
+                  types={k_: EnumVal("FeatureType", k_, v) for k_, v in ft.items() if k_ != "BOOLEAN"},
+                  fcards=((0, 3), (1, -1), (2, 10)), values=pv)
+    ctx.analysed.update({f"C01:pairwise-{k_}": v for k_, v in sweep(
+        cd, mb, fr, ("name", "root", "parent", "relation", "constraint", "constraint-count", "abstract", "type", "fcard",
+                     "attribute")).items()})
     cd.finish_unowned()
